@@ -24,6 +24,7 @@ func init() {
 			"R6 the set of AST types ignored by the matcher compiler is within {*ast.CommentGroup, *ast.Object}, token.Pos goes to PosMatcher whose verdict is an equality of the two validity tests, and the goast.*Type globals denote the go/ast types their names say; " +
 			"R7 every type reachable from the pattern roots in GOROOT's go/ast has a kind handled by compileGeneric or is a comparable scalar; R8 the statement-container switch covers exactly the go/ast structs with a []ast.Stmt field, with the right field name; " +
 			"R9 splitPatch sends '-' lines to the minus version only, '+' lines to the plus version only and all others to both, stripping exactly the marker byte. " +
+			"R11 a repeated metavariable compares literally (= C02-R3/R7): the matcher captured at the first occurrence is compiled from the captured code by a fresh compiler with no metavariable table; R12 every matcher hands its sub-matchers projections of its own candidate (= C03-R9). " +
 			"NOT decided: correctness of reflect, go/parser and astutil.Apply; semantic adequacy of the pattern parse (pgo); interaction of overlapping matches; which text ends up in the output (C03/C05).",
 		Trusted:     commonTrusted,
 		Assumptions: commonAssumptions,
@@ -41,6 +42,14 @@ func runC01(r *an.Run) {
 	c01Containers(r)
 	c01SplitPatch(r)
 	memoDependencies(r, "R10-failure-memo-sees-every-binding")
+	// a repeated metavariable accepts only identical code: the comparison matcher of the first capture is
+	// compiled from the captured code by a fresh compiler without metavariables (names in captured code
+	// are literal), and it is applied to the later occurrence itself
+	c02Consistency(r)
+	c02CapturedCompilerUntweaked(r)
+	relabel(r, "R3-consistent-binding", "R11-repeated-metavariable-compares-literally")
+	relabel(r, "R7-captured-matcher-ignores-nothing-more", "R11-repeated-metavariable-compares-literally")
+	candidateHandedDown(r, "R12-the-candidate-is-what-is-matched")
 }
 
 const (
